@@ -39,6 +39,7 @@ REWRITES = {
     'R1b': '`unreachable!(\"..\", args)` / `panic!(\"..\", args)` lose their message and become `unreachable!()` (the arm stays an obligation: it must be proved unreachable)',
     'R23': 'a field of type RwLock<T> is given the type T and `self.F.write().unwrap()` / `self.F.read().unwrap()` become `&mut self.F` / `&self.F` (receiver &self -> &mut self, R7): the lock guard held to the end of the block is the exclusive / shared borrow of the protected value; single-task semantics only, no claim about interleavings or lock poisoning',
     'R24': 'a provided (default-bodied) trait method is lifted out of its trait into a free generic function (`fn f(&mut self, ..)` of `trait T` -> `fn f<A: T>(vx_self: &mut A, ..)`, `Self` -> `A`, `self` -> `vx_self`) so that its contract can use spec functions that are generic over the trait (Verus rejects those inside the trait: cyclic definition); in the extracted trait declaration the method loses its body and is a required method; a verification of THE method as long as no implementor overrides it',
+    'R26': '`E.iter_mut().for_each(F)` becomes `vx_for_each_mut(&mut E, F)`, a declared function with the ASSUMED std contract: F runs once on every element, in place, the length is kept',
     'R25': '`while let PAT = EXPR { BODY }` becomes `loop { match EXPR { PAT => { BODY } _ => { break; } } }` (definitional desugaring; Verus has no while-let)',
     'R22': 'by-value receiver `mut self` becomes `self` with `let mut vx_self = self;` first in the body and every `self` of the body renamed (Verus does not support `mut self`; the binding mode of a by-value parameter is not part of the interface)',
     'R12': 'derive(Default) expanded to the field-wise impl the derive generates (inside verus!, verified, not assumed)',
@@ -514,7 +515,7 @@ pub assume_specification [<{q} as PartialEq>::eq] (a: &{q}, b: &{q}) -> (r: bool
     # ---------- functions ----------
     def fn(self, path, impl, fn, requires=(), ensures=(), loops=None, ghost=(), subst=(), trait=None,
            erase_async=False, mut_self=False, ret_name='r', decreases=None, keep_macros=(), external_body=False,
-           let_chains=True, fmt=True, hash_loops=(), vis='pub', recommends=(), trait_full=None, keep_arms=None, as_inherent=False, copied_loops=(), eta=(), closures=None, continue_guards=(), deref_loops=(), attrs=(), clone_loops=(), into_values_loops=(), unlock=(), lift_default=None):
+           let_chains=True, fmt=True, hash_loops=(), vis='pub', recommends=(), trait_full=None, keep_arms=None, as_inherent=False, copied_loops=(), eta=(), closures=None, continue_guards=(), deref_loops=(), attrs=(), clone_loops=(), into_values_loops=(), unlock=(), lift_default=None, for_each_mut=False):
         """Extract one fn verbatim and splice its contract.  Returns a list of Seg (to be put in an impl block).
         requires/ensures: list of (name, text).  loops: {ordinal: dict(invariant=[(name,text)], decreases=text, iter='vx_it')}
         ghost: list of (anchor, text) with anchor in ('body_start',), ('body_end',), ('loop_start',k), ('loop_end',k),
@@ -963,6 +964,22 @@ pub assume_specification [<{q} as PartialEq>::eq] (a: &{q}, b: &{q}) -> (r: bool
             def inside(x):
                 return any(ds[0] <= x[0] and x[1] <= ds[1] and (x[0], x[1]) != ds for ds in dropped_arm_spans)
             edits = [x for x in edits if not inside(x)]
+        # R26: `E.iter_mut().for_each(F)` -> `vx_for_each_mut(&mut E, F)` (every occurrence; E a place expression of names and fields).
+        # for_each_mut may map a place (`self.added`) to the contract of the closure handed to for_each at that place, so that
+        # the contract follows the place and not the ordinal of the closure
+        if for_each_mut:
+            closures = dict(closures or {})
+            whole0 = src[a:b].decode()
+            for m26 in re.finditer(r'\b([A-Za-z_][A-Za-z0-9_]*(?:\s*\.\s*[A-Za-z_0-9]+)*)\s*\.\s*iter_mut\(\)\s*\.\s*for_each\(\s*', whole0):
+                s26 = len(whole0[:m26.start()].encode()) + a
+                e26 = len(whole0[:m26.end()].encode()) + a
+                place = ''.join(m26.group(1).split())
+                edits.append((s26, e26, [Seg(f'vx_for_each_mut(&mut {place}, ')]))
+                self._rw('R26')
+                if isinstance(for_each_mut, dict) and place in for_each_mut:
+                    hit = [i for i, C0 in enumerate(e['closures']) if C0['span'][0] == e26]
+                    if len(hit) == 1:
+                        closures[hit[0]] = dict(for_each_mut[place], id='_' + re.sub(r'\W+', '_', place))
         # closure contracts: the k-th closure gets typed parameters, a named result and an ensures clause (annotation only;
         # the closure body is untouched)
         for k, spec in (closures or {}).items():
@@ -970,6 +987,8 @@ pub assume_specification [<{q} as PartialEq>::eq] (a: &{q}, b: &{q}) -> (r: bool
             if every:
                 k = k[:-1]
             kid = k if not isinstance(k, str) else '_' + re.sub(r'\W+', '_', k).strip('_')
+            if isinstance(spec, dict) and spec.get('id'):
+                kid = spec['id']
             if isinstance(k, str):
                 # a closure named by its parameter list as written (`|m|`): robust against closures added before it;
                 # `|m|*`: every closure with that parameter list gets the contract (one obligation id for all of them)
